@@ -746,6 +746,9 @@ func (s *programState) makeAllotment(monetary *big.Int, items []parser.Allotment
 	for i, item := range items {
 		switch allotment := item.(type) {
 		case *parser.RatioLiteral:
+			if allotment.Denominator.Sign() == 0 {
+				return nil, divisionByZeroErr(allotment)
+			}
 			rat := allotment.ToRatio()
 			totalAllotment.Add(totalAllotment, rat)
 			allotments = append(allotments, rat)
@@ -797,6 +800,15 @@ func (s *programState) makeAllotment(monetary *big.Int, items []parser.Allotment
 	}
 
 	return parts, nil
+}
+
+// a portion literal like "1/0" is grammatically valid, but it isn't a number
+func divisionByZeroErr(portion *parser.RatioLiteral) InterpreterError {
+	return BadPortionParsingErr{
+		Range:  portion.Range,
+		Source: portion.Numerator.String() + "/" + portion.Denominator.String(),
+		Reason: "division by zero",
+	}
 }
 
 // Builtins
